@@ -1,17 +1,24 @@
 """C14 - lookup serves fresh, stable, correctly prioritised templates over time.
 
-corr  : histories (<= 40 ops over {tick, write, delete, break, get_template, has_template, put_string,
-        put_template}, 1-3 directories, <= 8 URIs) are executed on the REAL TemplateLookup over a temp tree with a
-        simulated whole-second clock (time.time as seen by mako.codegen, timeit.default_timer as seen by mako.util,
-        os.utime on every written source and module file) and on the Lean model (driver op `lookup run`); per step
-        the returned template identity (objects numbered in order of Template.__init__ entry), the rendered content,
-        the exception class, the sorted collection keys and the construction count are compared;
+corr  : histories (<= 40 ops over {tick, write, delete, break (does not compile in Mako), break late (compiles, the
+        generated module raises at import; 3 variants), get_template, has_template, put_string, put_template},
+        1-3 directories, <= 8 URIs) are executed on the REAL TemplateLookup over a temp tree with a simulated
+        whole-second clock (time.time as seen by mako.codegen, timeit.default_timer as seen by mako.util, os.utime on
+        every written source and module file) and on the Lean model (driver op `lookup run`); per step the returned
+        template identity (objects numbered in order of Template.__init__ entry), the rendered content, the exception
+        kind (TopLevelLookupException / TemplateLookupException / Mako compile error / whatever the module import
+        raises), the sorted collection keys and the construction count are compared;
         x filesystem_checks on/off, collection_size in {-1,1,2,4}, module_directory on/off.
+        Streams: corpus (witnesses of the Lean counterexample / witness theorems and of repaired defects),
+        exhaustive (all histories shorter than L over a 13-op alphabet x 16 configurations), exhaustive_sampled
+        (all histories of length L x 3 rotating configurations), random (uniform and lifecycle-biased generators).
 oracle: an independent reference of "what should be served", written from the property text (no Lean): freshness
         with whole seconds, stability (same object, no construction), frozen when checks are off, first directory
-        wins, put entries served, exception classes, usable after a failed compile (no entry, mutex free),
-        len(collection) <= 1.5 n, the evicted are the least recently fetched, eviction never changes the content a
-        lookup returns (same history replayed with collection_size=-1).  Failing histories are shrunk with ddmin.
+        wins, put entries stored and served, exception classes, usable after a failed compile or a failed import (no
+        entry, mutex free, the corrected file loads), len(collection) <= 1.5 n, the evicted are the least recently
+        fetched, eviction never changes the content a lookup returns (same history replayed with
+        collection_size=-1).  Failing histories are shrunk with ddmin; a violation is filed under a site name, the
+        recorded findings (known_findings.json, F-C14-2..6) are matched by site.
 """
 from __future__ import annotations
 
@@ -37,7 +44,10 @@ ASSUMPTIONS = [
     "written by _compile_module_file; sub-second timing (float _modified_time vs int ST_MTIME) is outside the quantifier",
     "timeit.default_timer (LRU stamps) is strictly increasing (modelled as a counter): no two stamps are equal",
     "sequential use only (concurrency is C16); the second-chance read in _load is therefore never taken",
-    "'broken' = content that does not compile ('${'); unreadable files (permissions) are not exercised - the harness runs as root",
+    "two kinds of broken content: 'b' does not compile in Mako ('${'; nothing is written), 'l' compiles in Mako but the "
+    "generated module raises when imported/executed (3 variants: `<% break %>` -> SyntaxError, `<%! import nonexistent %>` "
+    "-> ModuleNotFoundError, `<%! raise RuntimeError %>`; with a module directory the module file is written and stays); "
+    "unreadable files (permissions) are not exercised - the harness runs as root",
     "put_template is given templates constructed earlier in the same history (by this lookup or by put_string)",
     "sys.dont_write_bytecode is set while the histories run (no __pycache__ beside the module files; that cache is C15's subject)",
 ]
@@ -400,9 +410,14 @@ def reference(ndirs, checks, size, moddir, history, steps):
                               # written, the source file it was generated from)
 
     def late_verdict(u, srcfile):
-        """an import error although `srcfile` compiles: 'grace' = the leftover module file was written in the very
+        """an import error that is not the source's own: 'grace' = the leftover module file was written in the very
         second of the source's mtime (allowance); 'othersrc' = it was generated from another source file and is not
-        older than this one (recorded finding); 'bad' = anything else"""
+        older than this one (recorded finding F-C14-6); 'bad' = anything else.
+        'bad' gives the site `corrected-file-does-not-load`, which has no known_findings entry on purpose: it is a
+        regression site.  On the code as it is it cannot occur (model: a module file of the *same* source that is
+        younger than the source's mtime has the source's lateness, invariant `ModCur`; an older one is overwritten
+        without being imported, obligation `stale_decided_before_import`); it fires when the module file is imported
+        before its staleness is decided."""
         if not (moddir and u in latemod and srcfile in disk):
             return "bad"
         t, lsrc = latemod[u]
@@ -474,7 +489,13 @@ def reference(ndirs, checks, size, moddir, history, steps):
                     if out not in ("top", "has0"):
                         yield ("no-file-not-toplevel", i, "no file for the URI, got %s" % out)
                 elif disk[first][0] is None:
-                    if out != kind[first] and not in_grace and not late_grace and \
+                    if out == "late" and lv == "othersrc":
+                        # the first directory's file does not compile either, but what is raised is the import error of
+                        # a leftover module file generated from another source file: the recorded finding, not this site
+                        yield ("late-module-of-other-source-blocks-import", i,
+                               "file %r is %s-broken (mtime %d), got the import error of a leftover module file (%s, "
+                               "module written at %r)" % (first, kind[first], disk[first][1], st["exc"], latemod.get(u)))
+                    elif out != kind[first] and not in_grace and not late_grace and \
                             not (moddir and k == "h" and out == "has1"):
                         yield ("broken-file-no-compile-error", i, "file is %s-broken, got %s" % (kind[first], out))
                 elif out == "late":
